@@ -375,3 +375,178 @@ Proof.
           = Ok [Cr; Open [x68; x37] []; Close [x68; x37]; Lit [x0a]]) as E by (vm_compute; reflexivity).
   specialize (H E). vm_compute in H. discriminate H.
 Qed.
+
+(* ------------------------------------------------------------------ Part 5 *)
+(* (a) raw bytes in the events are inert *)
+Lemma c02_no_raw_html : forall slug o t evs,
+  o_unsafe o = false -> s7 t = true -> s4 t = true ->
+  (forall h, forallb inert_byte (slug h) = true) ->
+  events slug o t = Ok evs ->
+  forall b, In (RawHtml b) evs -> forallb inert_byte b = true.
+Proof.
+  intros slug o t evs U H7 H4 SL H b Hin.
+  pose proof (c02_events slug o t evs U H7 H4 SL H) as S.
+  rewrite forallb_forall in S. exact (S _ Hin).
+Qed.
+
+(* (b) where the raw bytes come from: with unsafe off every RawHtml event carries the literal of
+   an EscapedTag (or Raw) node of the tree — never the literal of an HtmlBlock / HtmlInline, a
+   title, a URL, ...  No shape hypothesis is needed for this one. *)
+(* raws, raw_lit, raw_lits: Spec/HtmlSpec.v *)
+
+Lemma raws_app a b : raws (a ++ b) = raws a ++ raws b.
+Proof. apply flat_map_app. Qed.
+
+Lemma enter_raws slug o c v sp ch st e st' m :
+  o_unsafe o = false ->
+  enter slug o c (Node v sp ch) st = Ok (e, st', m) -> raws e = raw_lit v.
+Proof.
+  intros U H. destruct v;
+  unfold enter, sp_attr in H; cbv beta iota zeta in H; try rewrite U in H; cbn [negb] in H.
+  all: lazymatch type of H with
+  | context [anchorize] =>
+    destruct (o_header_ids o) as [prefix|];
+    [ destruct (anchorize _ _ _) as [[iss' id]| |]; cbn [bind] in H; try discriminate H |];
+    okinv3 H; reflexivity
+  | _ => brk H; okinv3 H; reflexivity
+  end.
+Qed.
+
+Lemma backref_loop_raws name fnix : forall total k, raws (backref_loop name fnix total k) = [].
+Proof.
+  induction total as [|t IH]; intro k; [reflexivity|].
+  cbn [backref_loop]. rewrite !raws_app, IH. destruct (1 <? N.of_nat k)%N; reflexivity.
+Qed.
+
+Lemma put_backref_raws name total st : raws (fst (fst (put_footnote_backref name total st))) = [].
+Proof.
+  unfold put_footnote_backref. destruct (_ <=? _)%N; [reflexivity|]. apply backref_loop_raws.
+Qed.
+
+Ltac use_backref_raws :=
+  match goal with
+  | E : put_footnote_backref ?n ?t ?s = (?l, _, _) |- _ =>
+    let PB := fresh "PB" in
+    pose proof (put_backref_raws n t s) as PB; rewrite E in PB; cbn [fst] in PB;
+    change (raws (?x :: ?r)) with (raws ([x] ++ r)); rewrite ?raws_app, PB
+  end.
+
+Lemma exit_raws o c v sp ch st e st' :
+  exit_ o c (Node v sp ch) st = Ok (e, st') -> incl (raws e) (raw_lit v).
+Proof.
+  intros H. destruct v; unfold exit_ in H; cbv beta iota zeta in H.
+  all: brk H; okinv2 H; try use_backref_raws;
+       first [ apply incl_nil_l | apply incl_refl ].
+Qed.
+
+Lemma render_list_raws slug o (U : o_unsafe o = false) v pv : forall l,
+  Forall (fun n => forall c st e st', render slug o c n st = Ok (e, st') -> incl (raws e) (raw_lits n)) l ->
+  forall i prev s e s', render_list slug o v pv l i prev s = Ok (e, s') ->
+  incl (raws e) (flat_map raw_lits l).
+Proof.
+  induction 1 as [|x r Hx _ IH]; intros i prev s e s' H; cbn [render_list] in H.
+  - injection H as <- <-. apply incl_nil_l.
+  - destruct (render slug o _ x s) as [[ex sx]| |] eqn:RX; cbn [bind] in H; try discriminate H.
+    destruct (render_list slug o v pv r _ _ sx) as [[er sr]| |] eqn:RR; cbn [bind] in H; try discriminate H.
+    injection H as <- <-. rewrite raws_app. cbn [flat_map].
+    apply incl_app; [apply incl_appl, (Hx _ _ _ _ RX) | apply incl_appr, (IH _ _ _ _ _ RR)].
+Qed.
+
+Lemma render_raws slug o (U : o_unsafe o = false) : forall n c st e st',
+  render slug o c n st = Ok (e, st') -> incl (raws e) (raw_lits n).
+Proof.
+  induction n as [v sp ch IH] using node_ind2. intros c st e st' H.
+  rewrite render_unfold in H. cbn [raw_lits].
+  destruct (enter slug o c (Node v sp ch) st) as [[[e1 st1] m]| |] eqn:EN; cbn [bind] in H; try discriminate H.
+  apply (enter_raws _ _ _ _ _ _ _ _ _ _ U) in EN.
+  destruct m.
+  - destruct (render_list slug o v _ ch 0 None st1) as [[e2 st2]| |] eqn:RL; cbn [bind] in H; try discriminate H.
+    destruct (exit_ o c (Node v sp ch) st2) as [[e3 st3]| |] eqn:EX; cbn [bind] in H; try discriminate H.
+    injection H as <- <-. rewrite !raws_app, EN.
+    apply incl_app; [apply incl_appl, incl_refl|].
+    apply incl_app; [apply incl_appr, (render_list_raws slug o U _ _ _ IH _ _ _ _ _ RL)|].
+    apply incl_appl, (exit_raws _ _ _ _ _ _ _ _ EX).
+  - cbn [bind] in H.
+    destruct (exit_ o c (Node v sp ch) st1) as [[e3 st3]| |] eqn:EX; cbn [bind] in H; try discriminate H.
+    injection H as <- <-. rewrite !raws_app, EN. cbn [app].
+    apply incl_app; [apply incl_appl, incl_refl|].
+    apply incl_appl, (exit_raws _ _ _ _ _ _ _ _ EX).
+Qed.
+
+Lemma c02_raw_origin : forall slug o t evs,
+  o_unsafe o = false -> events slug o t = Ok evs ->
+  forall b, In (RawHtml b) evs -> In b (raw_lits t).
+Proof.
+  intros slug o t evs U H b Hin. unfold events in H.
+  destruct (render slug o root_ctx t _) as [[e st]| |] eqn:R; cbn [bind] in H; try discriminate H.
+  injection H as <-. apply (render_raws slug o U _ _ _ _ _ R).
+  assert (In b (raws (e ++ finish st))) as Hb.
+  { unfold raws. apply in_flat_map. exists (RawHtml b). split; [exact Hin | left; reflexivity]. }
+  rewrite raws_app in Hb. apply in_app_or in Hb. destruct Hb as [Hb|Hb]; [exact Hb|].
+  unfold finish in Hb. destruct (0 <? fn_ix st)%N; destruct Hb.
+Qed.
+
+(* (c) the only trace of an HtmlBlock / HtmlInline node: the placeholder, or escaped text *)
+Lemma c02_html_block slug o c bt l sp ch st :
+  o_unsafe o = false ->
+  enter slug o c (Node (HtmlBlock bt l) sp ch) st =
+    Ok ((if o_escape o then [Cr; Txt l; Cr] else [Cr; Cmt; Cr]), st, MHtml) /\
+  exit_ o c (Node (HtmlBlock bt l) sp ch) st = Ok ([], st).
+Proof.
+  intro U. split; [|reflexivity]. unfold enter. cbv beta iota zeta. rewrite U.
+  destruct (o_escape o); reflexivity.
+Qed.
+
+Lemma c02_html_inline slug o c l sp ch st :
+  o_unsafe o = false ->
+  enter slug o c (Node (HtmlInline l) sp ch) st =
+    Ok ((if o_escape o then [Txt l] else [Cmt]), st, MHtml) /\
+  exit_ o c (Node (HtmlInline l) sp ch) st = Ok ([], st).
+Proof.
+  intro U. split; [|reflexivity]. unfold enter. cbv beta iota zeta. rewrite U.
+  destruct (o_escape o); reflexivity.
+Qed.
+
+(* (d) URL attributes *)
+(* url_shape, attrs_of: Spec/HtmlSpec.v *)
+
+Lemma url_value_safe_shape v : url_value_safe v = true -> url_shape v.
+Proof.
+  unfold url_value_safe, url_shape. destruct v as [|p r]; [left; reflexivity|]. intro H.
+  destruct p as [b|b|b|b].
+  - destruct r; discriminate H.
+  - destruct r; [|discriminate H]. right; left. exists b. split; [reflexivity|].
+    destruct (dangerous_spec b); [discriminate H | reflexivity].
+  - right; right. apply andb_true_iff in H. destruct H as [H1 H2].
+    destruct b as [|x c]; [discriminate H1|].
+    destruct (beqb_spec x x23) as [->|N]; [exists c, r; split; [reflexivity | exact H2]|].
+    exfalso. revert H1 N. clear. destruct x; intros H1 N; try discriminate H1. apply N. reflexivity.
+  - destruct r; discriminate H.
+Qed.
+
+
+Lemma attr_safe_url t n v :
+  attr_safe t (Attr n v) = true -> is_url_attr n = true -> url_value_safe v = true.
+Proof.
+  cbn [attr_safe]. intros H Hn. rewrite Hn in H. apply andb_true_iff in H. exact (proj2 H).
+Qed.
+
+Lemma safe_ev_attrs e x : safe_ev e = true -> In x (attrs_of e) -> exists t, attr_safe t x = true.
+Proof.
+  intros S Hx. destruct e as [tg a|tg|tg a|b|b|b| |]; cbn [attrs_of] in Hx; try contradiction;
+  cbn [safe_ev] in S; apply andb_true_iff in S; destruct S as [_ S];
+  rewrite forallb_forall in S; exists tg; apply S; exact Hx.
+Qed.
+
+Lemma c02_urls : forall slug o t evs,
+  o_unsafe o = false -> s7 t = true -> s4 t = true ->
+  (forall h, forallb inert_byte (slug h) = true) ->
+  events slug o t = Ok evs ->
+  forall e n v, In e evs -> In (Attr n v) (attrs_of e) -> is_url_attr n = true -> url_shape v.
+Proof.
+  intros slug o t evs U H7 H4 SL H e n v He Ha Hn.
+  pose proof (c02_events slug o t evs U H7 H4 SL H) as S.
+  rewrite forallb_forall in S. specialize (S _ He).
+  destruct (safe_ev_attrs _ _ S Ha) as [tg A].
+  exact (url_value_safe_shape _ (attr_safe_url _ _ _ A Hn)).
+Qed.
